@@ -107,8 +107,14 @@ func verifyFuncOnce(w *World, key string, opts VerifyOpts) (res *FuncResult) {
 		x.maxInl = 4
 	}
 	if r := outOfSubset(fn); r != "" {
-		res.Err = "function uses " + r + " (outside the subset)"
-		return
+		if r == "reflect" && hasOpt(ct, "abstract-reflect") {
+			// checked in abstracted form: calls into package reflect yield arbitrary results and are assumed not to
+			// touch what the contract talks about; the function is listed as abstracted, not as verified code
+			c.Notes = append(c.Notes, key+": verified in ABSTRACTED form (calls into package reflect havoc their results)")
+		} else {
+			res.Err = "function uses " + r + " (outside the subset)"
+			return
+		}
 	}
 	x.stack = []string{key}
 	fr := x.newFrame(fn, 0, true)
